@@ -276,9 +276,59 @@ func (f *Facts) addCond(cond ssa.Value, truth bool, depth int) {
 			}
 		}
 	case *ssa.Phi:
-		// a && b lowered to a phi of constants/conditions: if all but one edge are the
-		// constant !truth, then the remaining edge has the value truth and the blocks agree.
-		// (go/ssa usually lowers && to control flow, so this is rare.)
+		// a && b (a || b) lowered to a phi of constants and conditions (switch cases, flag
+		// variables): if all but one edge are the constant !truth, the phi has the value truth
+		// only when control came over the remaining edge — then that edge's value is truth and
+		// everything that holds at the end of that predecessor holds too.
+		if x.Type().String() != "bool" {
+			return
+		}
+		rest := -1
+		for i, e := range x.Edges {
+			cv, isC := e.(*ssa.Const)
+			if isC && cv.Value != nil && ((cv.Value.String() == "false") == truth) {
+				continue
+			}
+			if rest >= 0 {
+				return
+			}
+			rest = i
+		}
+		if rest < 0 || rest >= len(x.Block().Preds) {
+			return
+		}
+		f.addCond(x.Edges[rest], truth, depth+1)
+		pb := x.Block().Preds[rest]
+		if len(pb.Instrs) > 0 && depth < 3 {
+			pf := FactsAt(pb.Instrs[len(pb.Instrs)-1])
+			f.merge(pf)
+		}
+	}
+}
+
+// merge adds the facts of g to f.
+func (f *Facts) merge(g *Facts) {
+	f.Cmps = append(f.Cmps, g.Cmps...)
+	for k := range g.NonNil {
+		f.NonNil[k] = true
+	}
+	for k := range g.IsNil {
+		f.IsNil[k] = true
+	}
+	for k, v := range g.TypeIs {
+		f.TypeIs[k] = append(f.TypeIs[k], v...)
+	}
+	for k := range g.TrueV {
+		f.TrueV[k] = true
+	}
+	for k := range g.FalseV {
+		f.FalseV[k] = true
+	}
+	for k, v := range g.NameIs {
+		f.NameIs[k] = append(f.NameIs[k], v...)
+	}
+	for k, v := range g.NameNot {
+		f.NameNot[k] = append(f.NameNot[k], v...)
 	}
 }
 
